@@ -47,8 +47,10 @@ def collect(kinds, n_hist, n_ops, rng, gen=H.gen_op, names=H.NAMES):
                     return op
             return ("exists", "a")
 
+        # next to a mount point, names that merely share its characters (component- vs string-prefix)
+        knames = names + ["m1x", "m", "m2x"] if kind == "mount" else names
         for _ in range(n_hist):
-            steps += H.run_history(kind, rng, n_ops, hid, names=names, gen=g)
+            steps += H.run_history(kind, rng, n_ops, hid, names=knames, gen=g)
             hid += 1
     return steps
 
